@@ -23,7 +23,7 @@ RULE = ("run = 1-4 descriptions (paper/example files, generator boards, random w
 
 
 def n_fixed(tier):
-    return 2
+    return 3
 
 
 def fixed_specs(tier, ctx):
@@ -35,7 +35,23 @@ def fixed_specs(tier, ctx):
         opl.append({"op": "solve_fresh", "d": i, "prune": True})
         opl.append({"op": "solve_fresh", "d": i, "prune": True})
         opl.append({"op": "solve_fresh", "d": i, "prune": False})
-    return [{"cfg": {"klass": "plain"}, "descs": descs, "ops": opl}, _quiet_spec(tier)]
+    return [{"cfg": {"klass": "plain"}, "descs": descs, "ops": opl}, _quiet_spec(tier), _concurrent_spec(tier)]
+
+
+def _concurrent_spec(tier):
+    """Pairs of processes calling run_games at the same time on games neither has seen before (same names,
+    different games), each pair followed by an ordinary batch over both games: whatever the two left behind
+    anywhere on the disk or in the home directory is consulted again."""
+    import random as _r
+    from .. import pools
+    rng = _r.Random(10)
+    n_pairs = 16 if tier == "quick" else 120
+    descs = [{"desc": enc(pools.stopping_game(rng, 5, 9)), "tag": "pair-game%d" % i} for i in range(2 * n_pairs)]
+    opl = []
+    for i in range(n_pairs):
+        opl.append({"op": "batch_pair", "a": [2 * i], "b": [2 * i + 1], "sched": 1000 + i, "p": (0.3, 0.5, 0.15)[i % 3]})
+        opl.append({"op": "batch", "ds": [2 * i, 2 * i + 1]})
+    return {"cfg": {"klass": "concurrent-batches"}, "descs": descs, "ops": opl}
 
 
 def _quiet_spec(tier):
@@ -168,6 +184,12 @@ def gen(rng, tier, ctx):
         if op["op"] in ("solve", "solve_fresh", "batch") and rng.random() < 0.25:
             op["scribble"] = True       # the caller edits the strategies / vectors it was handed
         opl.append(op)
+        if nd >= 2 and op["op"] == "batch" and rng.random() < 0.25:
+            # ... and two processes doing so at the same time, followed by an ordinary batch over the same games
+            da = rng.sample(range(nd), rng.randint(1, nd))
+            db = rng.sample(range(nd), rng.randint(1, nd))
+            opl.append({"op": "batch_pair", "a": da, "b": db, "sched": rng.randint(0, 2 ** 32), "p": rng.choice([0.1, 0.3, 0.6])})
+            opl.append({"op": "batch", "ds": sorted(set(da + db))})
     if twin_pair is not None and rng.random() < 0.7:
         # the sibling and its near-twin solved back to back, in one process, same mode
         pr = rng.random() < 0.6
@@ -176,6 +198,12 @@ def gen(rng, tier, ctx):
             pair.reverse()
         at = rng.randrange(len(opl) + 1)
         opl[at:at] = pair
+    if nd >= 2 and rng.random() < 0.1:
+        # two processes start with run_games at the same time, before anything else has touched these games
+        da = rng.sample(range(nd), rng.randint(1, nd - 1))
+        db = [d for d in range(nd) if d not in da][: len(da)] or [0]
+        opl[0:0] = [{"op": "batch_pair", "a": da, "b": db, "sched": rng.randint(0, 2 ** 32), "p": rng.choice([0.15, 0.3, 0.5])},
+                    {"op": "batch", "ds": sorted(set(da + db))}]
     return {"cfg": {"klass": klass}, "descs": descs, "ops": opl}
 
 
@@ -451,6 +479,8 @@ def execute(spec, w, ctx):
             events.append([i_op, "restart"])
         elif kind == "batch":
             v = _batch(i_op, op, spec, w, ctx, live, snap_e, ref, usable, events, states, discards, note_solve)
+        elif kind == "batch_pair":
+            v = _batch_pair(i_op, op, spec, w, live, ref, events, states, discards, note_solve)
         if v is None:
             v = check_intact(i_op)
         if v is not None:
@@ -507,6 +537,57 @@ def _batch(i_op, op, spec, w, ctx, live, snap_e, ref, usable, events, states, di
                             "result-differs")
     if op.get("scribble"):
         w.fired("caller-edits-returned-value", ops.scribble(val, ops.container_ids(live)))
+    return None
+
+
+def _batch_pair(i_op, op, spec, w, live, ref, events, states, discards, note_solve):
+    """Two processes call run_games at the same time (same folder, same home directory), each on its own
+    descriptions; the games are named by position, so both batches use the same names for different games."""
+    sides = []
+    for ds in (op["a"], op["b"]):
+        keep = []
+        for d in ds:
+            if d >= len(live):
+                continue
+            rp, ru = ref(d, True), ref(d, False)
+            if rp["status"] == "ok" and ru["status"] == "ok":
+                keep.append(d)
+            else:
+                discards["batch-ref-unusable"] = discards.get("batch-ref-unusable", 0) + 1
+        if not keep:
+            return None
+        sides.append(keep)
+    cfg = {"step_cap": 20 * sum((ref(d, True)["steps"] or 0) + (ref(d, False)["steps"] or 0) for k_ in sides for d in k_) + 100000}
+    games = [{"g%d" % j: live[d] for j, d in enumerate(keep)} for keep in sides]
+
+    def summ(out_):
+        s_ = ops.brief(out_)
+        s_["value"] = enc(out_["value"]) if out_["status"] == "ok" else None
+        return s_
+    out_a, res_b = ops.concurrently(w, int(op.get("sched", 0)), float(op.get("p", 0.3)),
+                                    lambda: ops.run_games(w, games[0], dict(cfg)), lambda: ops.run_games(w, games[1], dict(cfg)), summ)
+    events.append([i_op, "batch_pair", sides, out_a["status"], res_b["status"]])
+    vals = [out_a.get("value") if out_a["status"] == "ok" else None,
+            dec(res_b["value"]) if res_b.get("value") is not None else None]
+    for keep, out_, val in zip(sides, (out_a, res_b), vals):
+        if out_["status"] != "ok" or not isinstance(val, dict):
+            return viol("I10.2", i_op, "run_games over descriptions %s, called while another process was calling it too, did not return: %s %s" % (
+                keep, out_["status"], out_.get("etype") or ""), "batch-failed")
+        for j, d in enumerate(keep):
+            note_solve(d, True)
+            for prune, name in ((True, "g%d" % j), (False, "g%d_no_prune" % j)):
+                ent = val.get(name)
+                if ent is None:
+                    return viol("I10.2", i_op, "run_games result has no entry %r" % name, "batch-entry-missing")
+                want = dec(ref(d, prune)["value"])
+                got = (ent.get("final_strategies"), ent.get("reachability_strategies"), ent.get("rewards"),
+                       ent.get("probabilities"), ent.get("n_iterations_reach"), ent.get("n_iterations_rew"),
+                       ent.get("prob_min_rew"), ent.get("rew_min_reach"))
+                states.append(h(canon(got)))
+                if canon(got) != canon(want):
+                    return viol("I10.2", i_op, "two processes calling run_games at the same time: entry %r for description %d (%s) differs from "
+                                "solving it alone: got %s, reference %s" % (name, d, spec["descs"][d].get("tag"), short(got, 400), short(want, 400)),
+                                "result-differs")
     return None
 
 
